@@ -19,14 +19,21 @@ Fixpoint show_value (x : value) : string :=
   end.
 
 (* what C01 constrains: returned or not, and where returned slices lie *)
-Fixpoint show_shape (x : value) : string :=
+Fixpoint show_shape_raw (x : value) : string :=
   match x with
   | VR o n => match n with O => "e" | _ => "r" ++ dec_of_nat o ++ "+" ++ dec_of_nat n end
   | VNil => "e"
   | VL l => "[" ++ join "," ((fix go (l : list value) : list string :=
-                               match l with [] => [] | y :: r => show_shape y :: go r end) l) ++ "]"
+                               match l with [] => [] | y :: r => show_shape_raw y :: go r end) l) ++ "]"
   | VE => "err"
   | _ => "ok"
+  end.
+(* a list (or map, or decoded struct) that holds no non-empty range into the view is just "ok" *)
+Definition has_range (x : value) : bool := existsb (fun r => negb (Nat.eqb (snd r) 0)) (ranges x).
+Definition show_shape (x : value) : string :=
+  match x with
+  | VL _ => if has_range x then show_shape_raw x else "ok"
+  | _ => show_shape_raw x
   end.
 
 Definition show_out {A} (f : A -> string) (r : res A) : string :=
